@@ -21,6 +21,8 @@ CLAIMED = {
  'C13': ('5.13', 'Varint length prefix round trip, unambiguous splitting of any concatenated stream, well-formedness of the JSON object for any rendered values and any (ASCII) string bytes -- proved; the real bin output is compared byte for byte with the model encoder, encoding/json with the model escape (all single bytes exhaustively), and json.Valid / key order / protodelim stream / cross-format agreement are judged on the implementation under generated formatter configurations.', 'Partial: renderers and non-ASCII escaping are judged on the implementation only (json.Valid), protobuf-go and encoding/json are trusted. '),
 
  'C14': ('5.14', 'Custom destinations append exactly one unknown field with the configured number/wire type/value, existing columns are filled, unmatched traffic is unaffected, bit extraction equals the bit-level specification on a finite domain enumerated inside Coq, the key depends only on the key fields -- proved on the model; generated mapping files loaded by the real YAML loader and run over mixed traffic compared with the model compiled from the same abstract configuration; GetBytes swept on both sides.', 'Partial: get_bytes = bit spec is proved on a finite domain (buffers <= 2 bytes over a byte basis, offsets/lengths 0..17) and swept, not proved for all buffers; formatter.fields/rename/render are judged on the implementation. '),
+
+ 'C12': ('5.12', 'The converted message is independent of what the pool hands back and equals the conversion from an empty message; outputs depend on the pipe state only through the exporter own view; every prefix history of other source addresses leaves the outputs unchanged -- proved on the model; the real pool is poisoned through a verif hook and compared with the model, and probe histories after prefixes (valid, damaged, custom fields, poisoned, concurrent goroutines) are compared byte for byte (bin, JSON, text) with a fresh process.', 'Partial: sync.Pool and the generated FlowMessage.Reset are modelled (Reset clears all columns and unknown fields); the concurrent variant is observed, not proved. '),
 }
 props = [json.loads(l) for l in open(os.path.join(V, 'properties.jsonl'))]
 checks, na = [], []
@@ -38,7 +40,7 @@ for p in props:
         na.append(dict(property_id=pid, reason='check not built yet in this session (model and theorems planned in DESIGN.md section 5); not claimed until it runs'))
 m = dict(version=1, setup_cmd='bin/setup',
          hooks=dict(guard='verif', enable='go build -tags verif (harness/ imports /repo through a replace directive)',
-                    baseline_off_cmd='cd /repo && go test -vet=off -count=1 ./...', source_commits=[], add_only=True),
+                    baseline_off_cmd='cd /repo && go test -vet=off -count=1 ./...', source_commits=['a21f449', '2d0a23d'], add_only=True),
          engines=[dict(name='coq-correspondence', path='bin/check', serves_properties=[c['property_id'] for c in checks],
                        kind_free_text='Coq 8.16.1 proofs over a hand-written Gallina model; extracted OCaml model compared with the Go implementation built from /repo on every run')],
          checks=checks, notes='see DESIGN.md', not_applicable=na)
